@@ -296,6 +296,8 @@ class Fn:
                 x = k[1]
                 ds = def_sites(self, x)
                 rb = self._read_block(t["x"], x)
+                if rb is None and t["x"].get("k") in ("copy", "move") and t["x"]["l"] == x and not t["x"]["p"]:
+                    rb = sb         # the switch reads the merged local itself (`if flag`)
                 if rb is None:
                     ok = False
                     break
